@@ -5,7 +5,7 @@
    was resolved.  (Ingredients of pre-value coverage.) *)
 From GV Require Import Lib.Tactics Lib.Bytes Rlp.Codec Trie.Hex Trie.Node Trie.Ops Trie.Hash.
 From GV Require Import Trie.OpsProofs Trie.Canon Trie.Proof Trie.ProofProofs.
-From GV Require Import Trie.Commit Trie.CommitProofs Trie.CommitTracer Trie.X.CommitReads Trie.X.CommitSim Trie.X.CommitSimDel Trie.X.CommitEvents.
+From GV Require Import Trie.Commit Trie.CommitProofs Trie.CommitTracer Trie.CommitReads Trie.CommitSim Trie.CommitSimDel Trie.CommitEvents.
 Local Open Scope N_scope.
 
 Definition in_res (a : list N) (ev : list tev) : Prop := exists b, In (TRes a b) ev.
